@@ -10,7 +10,6 @@ package identify
 // peers of the universe.  Wire format: /verif/coq/c13/Spec.v.
 
 import (
-	"bytes"
 	"io"
 	"log/slog"
 	"sort"
@@ -47,7 +46,7 @@ func (x *c13Run) emit(op []int64, ret int64) {
 // a forced big message is a one-shot
 func (x *c13Run) takeMode() int {
 	m := x.mode
-	if m == 2 {
+	if m >= 2 {
 		x.mode = 1
 	}
 	return m
@@ -199,7 +198,7 @@ func (x *c13Run) push(c int64) {
 	cs, pad := x.g.message(x.peerOf(c), x.ridOf(c), x.takeMode())
 	data := x.e.encodeChunks(cs, pad)
 	x.coverConsume(c, "push")
-	x.e.ids.handlePush(&c13Stream{conn: x.e.conns[c], r: bytes.NewReader(data), proto: IDPush})
+	x.e.ids.handlePush(c13NewStream(x.e.conns[c], data, false, IDPush))
 	synctest.Wait()
 	x.coverCap(c)
 	x.emit(append([]int64{7, c}, c13WireChunks(cs)...), 0)
@@ -213,11 +212,21 @@ func (x *c13Run) timeout() {
 	}
 	sort.Slice(ids, func(i, j int) bool { return ids[i] < ids[j] })
 	for _, ch := range ids {
-		if x.g.r.Bool() {
+		c := x.e.taskOf[ch]
+		switch x.g.r.Intn(4) {
+		case 0:
+			x.g.out.Cover("timeout.new_stream_never_returns")
+		case 1: // accepts the stream, never answers the protocol negotiation
+			x.e.gates[ch].ch <- c13Answer{hang: true}
+			x.g.out.Cover("timeout.remote_silent_before_negotiation")
+		case 2:
 			x.e.gates[ch].ch <- c13Answer{data: c13Negotiated(ID), hang: true}
 			x.g.out.Cover("timeout.remote_silent_after_negotiation")
-		} else {
-			x.g.out.Cover("timeout.new_stream_never_returns")
+		default: // stops in the middle of the message
+			cs, _ := x.g.message(x.peerOf(c), x.ridOf(c), 0)
+			body := x.e.encodeChunks(cs[:1], nil)
+			x.e.gates[ch].ch <- c13Answer{data: append(c13Negotiated(ID), body[:len(body)/2+1]...), hang: true}
+			x.g.out.Cover("timeout.remote_silent_mid_message")
 		}
 		delete(x.e.gates, ch)
 	}
@@ -326,7 +335,7 @@ func c13OneCase(t *testing.T, out *verifh.Out, r *verifh.Rand, big bool) {
 			maxProtos = 4096
 		}
 		pcap := 64 // the address book's default per-peer cap on unconnected addresses
-		if big && r.Chance(2, 3) {
+		if big && r.Chance(1, 2) {
 			pcap = 0
 		}
 		nc := 2 + r.Intn(4)
@@ -409,6 +418,12 @@ func c13OneCase(t *testing.T, out *verifh.Out, r *verifh.Rand, big bool) {
 				}
 			}
 			out.Cover("case.ends_with_no_connection_and_no_pending_notification")
+			if big && r.Chance(2, 3) {
+				// a late message with many addresses once nothing is connected: the book's per-peer cap decides
+				x.mode = 3
+				x.push(int64(1 + r.Intn(nc)))
+				out.Cover("case.late_many_addresses_while_not_connected")
+			}
 		}
 		x.timeout()
 		out.Cover("cases")
@@ -460,7 +475,7 @@ func c13RaceCase(out *verifh.Out, r *verifh.Rand) {
 		(*netNotifiee)(e.ids).Disconnected(e.net, e.conns[victim])
 		close(done)
 	}
-	e.ps.addHook = func() {
+	hook := func() {
 		if fired.Swap(true) {
 			return
 		}
@@ -470,13 +485,25 @@ func c13RaceCase(out *verifh.Out, r *verifh.Rand) {
 		case <-time.After(2 * time.Millisecond):
 		}
 	}
-	e.ids.handlePush(&c13Stream{conn: e.conns[carrier], r: bytes.NewReader(data), proto: IDPush})
+	if r.Bool() {
+		// right after consumeMessage asked the swarm whether the peer is connected
+		e.net.connHook = hook
+		out.Cover("race.drop_at_connectedness_query")
+	} else {
+		// while consumeMessage writes the addresses
+		e.ps.addHook = hook
+		out.Cover("race.drop_at_add_addrs")
+	}
+	e.ids.handlePush(c13NewStream(e.conns[carrier], data, false, IDPush))
 	if !fired.Swap(true) {
 		drop() // the message was refused before any address was written
 		out.Cover("race.message_not_consumed")
 	}
 	<-done
 	e.ps.addHook = nil
+	e.net.mu.Lock()
+	e.net.connHook = nil
+	e.net.mu.Unlock()
 	// what Addrs(p) held when Disconnected ran under the lock: the peer's own
 	// addresses of the consumed message; what it passed on comes first
 	var order, consumed []int64
